@@ -1,7 +1,8 @@
 // C20 correspondence harness: the REAL sequencers/based.Sequencer on a key-ordered map datastore with a
 // scripted DA double (the only double).  A history is a list of GetNextBatch calls (each with its size
-// limit, the DA tip during the call, a retrieval error script and the LastBatchData policy) and restarts
-// (a new NewSequencer on the same datastore).  After each call the harness projects: the response
+// limit, the DA tip during the call, a retrieval error script, the LastBatchData policy and the kind of
+// request: ordinary, under a cancelled context, with a foreign chain id, with a LastBatchData whose last id
+// cannot name a DA height) and restarts (a new NewSequencer on the same datastore).  After each call the harness projects: the response
 // (transaction identities = (DA height, position) read from BatchData, timestamp as DA height), the DA
 // heights the call retrieved, the persisted scan position, the in-memory and the persisted carry-over queue.
 // Writes cases_C20.v (for Model/Based.v through Check/BasedCheck.v) and result.json (Go oracle).
@@ -39,8 +40,41 @@ type Call struct {
 	Max  uint64 `json:"max"`            // requested MaxBytes (0 = the sequencer's default)
 	Tip  uint64 `json:"tip"`            // DA heights > tip are "from the future" during this call
 	Errs []int  `json:"errs,omitempty"` // k-th retrieval of this call: 0 ok, 1 GetIDs fails, 2 Get fails, 3 an empty height is reported as ErrBlobNotFound (else: empty ID list)
-	Lbd  string `json:"lbd,omitempty"`  // "" = what the block manager passes (BatchData of the last non-empty batch), "none", "raw"
+	Lbd  string `json:"lbd,omitempty"`  // "" = what the block manager passes (BatchData of the last non-empty batch), "none", "raw", "short"
 	LbdH uint64 `json:"lbdh,omitempty"` // raw: a forged LastBatchData naming this height
+	Req  string `json:"req,omitempty"`  // "" = ordinary, "cancelled" = the context is already cancelled, "foreign" = another chain's id
+	V    int    `json:"v,omitempty"`    // which malformed LastBatchData / which foreign id (shortLBD, foreignID)
+}
+
+// unusable: GetNextBatch cannot use the request (foreign chain id; LastBatchData whose last id has <= 8 bytes)
+func (c *Call) unusable() bool { return c.Req == "foreign" || c.Lbd == "short" }
+
+// a LastBatchData whose LAST id cannot name a DA height (coreda.SplitID needs more than 8 bytes)
+func shortLBD(v int, mgr [][]byte) [][]byte {
+	switch v % 5 {
+	case 0:
+		return [][]byte{[]byte("short")}
+	case 1:
+		return [][]byte{{}} // the empty id
+	case 2: // what the manager kept, followed by an id of exactly 8 bytes (a height without a commitment)
+		out := append([][]byte{}, mgr...)
+		return append(out, []byte{3, 0, 0, 0, 0, 0, 0, 0})
+	case 3:
+		return [][]byte{mkID(2, 0), nil}
+	default:
+		return [][]byte{mkID(1, 0), mkID(1, 1), {7}}
+	}
+}
+
+func foreignID(v int) []byte {
+	switch v % 3 {
+	case 0:
+		return []byte("c21")
+	case 1:
+		return nil
+	default:
+		return []byte("c20x")
+	}
 }
 type Item struct {
 	T    string `json:"t"` // call | restart
@@ -133,14 +167,50 @@ func genReplay(r *rand.Rand, seed int64, c int, maxCalls int) Replay {
 	if tip > 0 && r.Intn(4) == 0 {
 		tip--
 	}
+	// half of the cases also contain requests that cannot be used (foreign chain id, malformed LastBatchData)
+	// and calls under a cancelled context: anywhere between the ordinary calls, so also right after a call that
+	// left a carry-over, right before and right after a restart, before the first and after the last call
+	special := r.Intn(2) == 0
+	unusableCall := func(max, tip uint64) Item {
+		cl := &Call{Max: max, Tip: tip, V: r.Intn(15)}
+		if r.Intn(10) < 6 {
+			cl.Lbd = "short"
+			if r.Intn(6) == 0 {
+				cl.Req = "cancelled" // still refused before anything is touched
+			}
+		} else {
+			cl.Req = "foreign"
+			switch r.Intn(4) {
+			case 0:
+				cl.Lbd = "none"
+			case 1:
+				cl.Lbd = "short" // the chain id is looked at first
+			}
+		}
+		return Item{T: "call", Call: cl}
+	}
 	ncalls := 3 + r.Intn(maxCalls)
 	for i := 0; i < ncalls; i++ {
-		if i > 0 && r.Intn(5) == 0 {
+		restart := i > 0 && r.Intn(5) == 0
+		mx := cm
+		if !constMax {
+			mx = maxes[r.Intn(len(maxes))]
+		}
+		if special && restart && r.Intn(4) == 0 {
+			rp.History = append(rp.History, unusableCall(mx, tip)) // last call of the old process
+		}
+		if restart {
 			rp.History = append(rp.History, Item{T: "restart"})
 		}
-		cl := &Call{Max: cm, Tip: tip}
-		if !constMax {
-			cl.Max = maxes[r.Intn(len(maxes))]
+		if special && r.Intn(5) == 0 {
+			rp.History = append(rp.History, unusableCall(mx, tip))
+			if r.Intn(4) == 0 {
+				rp.History = append(rp.History, unusableCall(mx, tip))
+			}
+		}
+		cl := &Call{Max: mx, Tip: tip}
+		if special && r.Intn(7) == 0 {
+			cl.Req = "cancelled"
 		}
 		if r.Intn(4) == 0 {
 			n := 1 + r.Intn(int(rp.Drift)+1)
@@ -157,6 +227,9 @@ func genReplay(r *rand.Rand, seed int64, c int, maxCalls int) Replay {
 		}
 		rp.History = append(rp.History, Item{T: "call", Call: cl})
 		tip += uint64([]int{0, 0, 1, 1, 2, 3}[r.Intn(6)])
+	}
+	if special && r.Intn(6) == 0 {
+		rp.History = append(rp.History, unusableCall(cm, tip))
 	}
 	return rp
 }
@@ -205,6 +278,9 @@ func (d *scriptDA) GetIDs(ctx context.Context, height uint64, ns []byte) (*cored
 	d.k++
 	d.log = append(d.log, height)
 	d.getErr = false
+	if err := ctx.Err(); err != nil { // a DA client does not answer a cancelled request
+		return nil, err
+	}
 	if code == 1 {
 		return nil, errors.New("scripted GetIDs failure")
 	}
@@ -227,6 +303,9 @@ func (d *scriptDA) GetIDs(ctx context.Context, height uint64, ns []byte) (*cored
 	return &coreda.GetIDsResult{IDs: ids, Timestamp: t0.Add(time.Duration(height) * time.Second)}, nil
 }
 func (d *scriptDA) Get(ctx context.Context, ids []coreda.ID, ns []byte) ([]coreda.Blob, error) {
+	if err := ctx.Err(); err != nil {
+		return nil, err
+	}
 	if d.getErr {
 		return nil, errors.New("scripted Get failure")
 	}
@@ -266,6 +345,7 @@ type qent struct {
 }
 type obs struct {
 	failed  bool // GetNextBatch returned an error
+	errk    int  // its class: 1 = ErrInvalidId, 3 = the context's error, 2 = any other
 	nilResp bool
 	txs     []txid
 	ts      int64
@@ -349,7 +429,7 @@ func coqQ(q []qent) string {
 func (o obs) coq() string {
 	resp := "RNone"
 	if o.failed {
-		resp = "RFail"
+		resp = fmt.Sprintf("(RFail %d)", o.errk)
 	} else if !o.nilResp {
 		resp = fmt.Sprintf("(RBatch %s %s)", coqIDs(o.txs), coqOptN(o.ts))
 	}
@@ -420,12 +500,18 @@ func runCase(rp *Replay, withRestarts bool, oracle bool) (res *caseResult) {
 		}
 	}
 	released := map[txid]int{}
+	everQueued := map[txid]bool{} // seen in the carry-over queue after some call
 	nextIdx := 0 // first stream element not yet released
 	raw := rp.hasRaw()
 	var mgrLBD [][]byte // what block.Manager.retrieveBatch keeps: BatchData of the last non-nil response
-	var prevQ []qent
+	var prevQ []qent    // the stored queue after the previous call
+	var prevMem []qent  // the queue in the memory of the running process before this call
+	justRestarted := false
+	cancelled, cancel := context.WithCancel(context.Background())
+	cancel()
 
-	for _, it := range rp.full() {
+	items := rp.full()
+	for ii, it := range items {
 		if it.T == "restart" {
 			if withRestarts {
 				seq, err = based.NewSequencer(logger, da, chainID, rp.Start, rp.Drift, store)
@@ -433,7 +519,9 @@ func runCase(rp *Replay, withRestarts bool, oracle bool) (res *caseResult) {
 					res.fail("restart-failed", err.Error())
 					return
 				}
+				prevMem = prevQ // the new process starts from the stored queue
 			}
+			justRestarted = true
 			continue
 		}
 		cl := it.Call
@@ -444,13 +532,41 @@ func runCase(rp *Replay, withRestarts bool, oracle bool) (res *caseResult) {
 			req.LastBatchData = mgrLBD
 		case "raw":
 			req.LastBatchData = [][]byte{mkID(cl.LbdH, 0)}
+		case "short":
+			req.LastBatchData = shortLBD(cl.V, mgrLBD)
 		}
-		resp, err := seq.GetNextBatch(ctx, req)
+		cctx := ctx
+		switch cl.Req {
+		case "cancelled":
+			cctx = cancelled
+		case "foreign":
+			req.Id = foreignID(cl.V)
+		}
+		kind := "ordinary"
+		if cl.unusable() {
+			kind = "unusable"
+		} else if cl.Req == "cancelled" {
+			kind = "cancelled"
+		}
+		resp, err := seq.GetNextBatch(cctx, req)
 		o := obs{log: da.log, ts: -1}
 		switch {
 		case err != nil:
 			o.failed = true
-			res.fail("call-failed", "GetNextBatch returned an error: "+err.Error())
+			switch {
+			case errors.Is(err, based.ErrInvalidId):
+				o.errk = 1
+			case errors.Is(err, context.Canceled):
+				o.errk = 3
+			default:
+				o.errk = 2
+			}
+			// an error is what a request that cannot be used is answered with; a call under a cancelled context
+			// may report the context's error (the pinned code does not) — whether anything was lost by it is
+			// judged below; an ordinary call must not fail
+			if kind == "ordinary" {
+				res.fail("call-failed", "GetNextBatch returned an error: "+err.Error())
+			}
 		case resp == nil:
 			o.nilResp = true
 		default:
@@ -500,6 +616,25 @@ func runCase(rp *Replay, withRestarts bool, oracle bool) (res *caseResult) {
 		if len(prevQ) > 0 {
 			res.stat["call:starts-with-carry-over"]++
 		}
+		if kind != "ordinary" {
+			res.stat["call:"+kind]++
+			if cl.Lbd == "short" {
+				res.stat[fmt.Sprintf("call:malformed-LastBatchData-variant-%d", cl.V%5)]++
+			}
+			if len(prevQ) > 0 {
+				res.stat["call:"+kind+"-with-carry-over-waiting"]++
+			}
+			if justRestarted {
+				res.stat["call:"+kind+"-right-after-restart"]++
+			}
+			if ii+1 < len(items) && items[ii+1].T == "restart" {
+				res.stat["call:"+kind+"-right-before-restart"]++
+			}
+			if o.failed {
+				res.stat["call:"+kind+"-answered-with-error"]++
+			}
+		}
+		justRestarted = false
 		if !o.nilResp && !o.failed {
 			res.stat["call:non-empty-batch"]++
 		} else {
@@ -526,6 +661,29 @@ func runCase(rp *Replay, withRestarts bool, oracle bool) (res *caseResult) {
 			if len(prevQ) > 0 && len(prevQ[0].txs) > 0 && len(o.txs) > 0 && o.txs[0] != prevQ[0].txs[0] {
 				res.fail("carry-over-not-first", fmt.Sprintf("carry-over head %v but the batch starts with %v", prevQ[0].txs[0], o.txs[0]))
 			}
+			// (2b) a transaction that did not fit is never dropped: whatever was queued before the call is in the
+			// batch or still queued after it, in memory and in the datastore — for every history and every kind of
+			// call (a request that cannot be used, a cancelled context included)
+			for vi, before := range [][]qent{prevMem, prevQ} {
+				after, view := o.memq, "in memory"
+				if vi == 1 {
+					after, view = o.durq, "in the datastore"
+				}
+				for _, e := range before {
+					for _, x := range e.txs {
+						if !hasTx(o.txs, x) && !inQueue(after, x) {
+							sig := "carry-over-dropped"
+							switch kind {
+							case "unusable":
+								sig = "unusable-request-consumes-carry-over"
+							case "cancelled":
+								sig = "cancelled-call-consumes-carry-over"
+							}
+							res.fail(sig, fmt.Sprintf("%v was queued %s before call %d (%s request) and is afterwards neither in its batch nor in that queue", x, view, len(res.obs)-1, kind))
+						}
+					}
+				}
+			}
 			// (3) DA order, exactly once — histories in which LastBatchData is what the manager passes
 			if !raw {
 				for _, t := range o.txs {
@@ -544,7 +702,7 @@ func runCase(rp *Replay, withRestarts bool, oracle bool) (res *caseResult) {
 						switch {
 						case inCarry:
 							res.fail("carry-over-overtaken", fmt.Sprintf("%v released while the earlier %v is still in the carry-over queue", t, exp))
-						case da.future[exp.h]:
+						case da.future[exp.h] && !everQueued[exp]:
 							res.fail("future-height-stepped-over", fmt.Sprintf("%v released but %v (height %d was stepped over while in the future) never was", t, exp, exp.h))
 						default:
 							res.fail("tx-skipped-or-reordered", fmt.Sprintf("%v released, expected %v", t, exp))
@@ -560,11 +718,19 @@ func runCase(rp *Replay, withRestarts bool, oracle bool) (res *caseResult) {
 			}
 		}
 		prevQ = o.durq
+		prevMem = o.memq
+		for _, q := range [][]qent{o.durq, o.memq} {
+			for _, e := range q {
+				for _, x := range e.txs {
+					everQueued[x] = true
+				}
+			}
+		}
 	}
 	if oracle && rp.Drain && !raw {
 		for _, t := range stream {
 			if released[t] == 0 {
-				if da.future[t.h] {
+				if da.future[t.h] && !everQueued[t] {
 					res.fail("future-height-stepped-over", fmt.Sprintf("%v never released: height %d was stepped over while in the future", t, t.h))
 				} else {
 					res.fail("tx-never-released", fmt.Sprintf("%v never released although every height was scanned without limit", t))
@@ -574,6 +740,23 @@ func runCase(rp *Replay, withRestarts bool, oracle bool) (res *caseResult) {
 		}
 	}
 	return
+}
+
+func hasTx(l []txid, x txid) bool {
+	for _, t := range l {
+		if t == x {
+			return true
+		}
+	}
+	return false
+}
+func inQueue(q []qent, x txid) bool {
+	for _, e := range q {
+		if hasTx(e.txs, x) {
+			return true
+		}
+	}
+	return false
 }
 
 func respSeq(c *caseResult) string {
@@ -682,12 +865,21 @@ func histCoq(h []Item) string {
 			lbd = "LNone"
 		case "raw":
 			lbd = fmt.Sprintf("(LRaw %d)", c.LbdH)
+		case "short":
+			lbd = "LShort"
 		}
 		errs := make([]uint64, len(c.Errs))
 		for i, e := range c.Errs {
 			errs[i] = uint64(e)
 		}
-		items = append(items, fmt.Sprintf("ICall (mkcall %d %d %s %s)", c.Max, c.Tip, coqNs(errs), lbd))
+		switch c.Req {
+		case "cancelled":
+			items = append(items, fmt.Sprintf("ICall (mkcallq %d %d %s %s QCancelled)", c.Max, c.Tip, coqNs(errs), lbd))
+		case "foreign":
+			items = append(items, fmt.Sprintf("ICall (mkcallq %d %d %s %s QForeignId)", c.Max, c.Tip, coqNs(errs), lbd))
+		default:
+			items = append(items, fmt.Sprintf("ICall (mkcall %d %d %s %s)", c.Max, c.Tip, coqNs(errs), lbd))
+		}
 	}
 	return "[" + strings.Join(items, "; ") + "]"
 }
@@ -756,6 +948,16 @@ func TestVerif(t *testing.T) {
 					lb = "manager"
 				}
 				res.Count("lastBatchData:" + lb)
+				switch {
+				case it.Call.Req == "foreign":
+					res.Count("request:foreign-chain-id")
+				case it.Call.Lbd == "short":
+					res.Count("request:malformed-LastBatchData")
+				case it.Call.Req == "cancelled":
+					res.Count("request:cancelled-context")
+				default:
+					res.Count("request:ordinary")
+				}
 				for _, x := range it.Call.Errs {
 					res.Count(fmt.Sprintf("retrieval-script:%d", x))
 				}
@@ -789,6 +991,15 @@ func TestVerif(t *testing.T) {
 		if nrest > 0 && cr.stat["call:leaves-carry-over"] > 0 {
 			res.Count("history:restart-and-carry-over")
 		}
+		if cr.stat["call:unusable"] > 0 {
+			res.Count("history:with-unusable-request")
+		}
+		if cr.stat["call:unusable-with-carry-over-waiting"] > 0 {
+			res.Count("history:unusable-request-while-carry-over-waits")
+		}
+		if cr.stat["call:cancelled-with-carry-over-waiting"] > 0 {
+			res.Count("history:cancelled-call-while-carry-over-waits")
+		}
 		hc := daCoq(rp.DA) + histCoq(rp.History)
 		if ncalls >= 3 && (cr.stat["call:leaves-carry-over"] > 0 || cr.stat["call:non-empty-batch"] > 1) {
 			distinct[hc] = true
@@ -818,7 +1029,7 @@ func TestVerif(t *testing.T) {
 		}
 	}
 	res.Distinct = len(distinct)
-	res.Rule = "histories of 3..10 GetNextBatch calls (thorough: ..22) and restarts (p=0.2 between calls) of the real based.Sequencer; DA contents: 3-10 heights around the start height, 35% empty, 1-4 transactions of 1-6 bytes; limits from {1..8,10,12,15,default,1000} (constant per case in half of the cases); DA tip starting near the start height and growing 0-3 per call (future heights); retrieval scripts (GetIDs error, Get error, not-found as error) in 25% of the calls; LastBatchData = what block.Manager passes (88%), none (8%), forged (only in 10% of the cases; those are correspondence-only); 70% of the cases end with drain calls and the no-loss check; non-trivial = at least 3 calls and a carry-over or two non-empty batches; distinct = distinct (DA, history) terms"
+	res.Rule = "histories of 3..10 GetNextBatch calls (thorough: ..22) and restarts (p=0.2 between calls) of the real based.Sequencer; DA contents: 3-10 heights around the start height, 35% empty, 1-4 transactions of 1-6 bytes; limits from {1..8,10,12,15,default,1000} (constant per case in half of the cases); DA tip starting near the start height and growing 0-3 per call (future heights); retrieval scripts (GetIDs error, Get error, not-found as error) in 25% of the calls; LastBatchData = what block.Manager passes (88%), none (8%), forged (only in 10% of the cases; those are correspondence-only); in half of the cases also requests that cannot be used (a LastBatchData whose last id has <= 8 bytes in 5 shapes incl. the empty id and exactly 8 bytes; a foreign chain id in 3 shapes) inserted before 20% of the calls (once or twice), before a restart (25%) and after the last call (17%), and ordinary calls under an already cancelled context (14%; the DA double answers them with the context's error); 70% of the cases end with drain calls and the no-loss check; non-trivial = at least 3 calls and a carry-over or two non-empty batches; distinct = distinct (DA, history) terms"
 	res.Cases = len(cases)
 	header := "From Coq Require Import NArith List Bool.\nFrom Verif Require Import Model.Based Check.BasedCheck."
 	// bin/check reads the mismatch indices in the form "(<i>%N, ...)": N_scope must be closed again before [Print M]
